@@ -588,6 +588,9 @@ pub fn run_with(cli: Cli, extra: &dyn Fn(&Report)) -> ! {
             } else {
                 long
             };
+            // one stream of 34 000 (thorough: 100 000) bytes per direction, undisturbed: what a cipher keeps beyond the
+            // register - a window, a counter - has to survive more than a login's worth of bytes
+            let long: Vec<(Vec<usize>, usize)> = if si == 0 { long.into_iter().chain([(if thorough { vec![40_000, 40_000, 20_000] } else { vec![17_000, 17_000] }, 0)]).collect() } else { long };
             for (msgs, bound) in long {
                 for switch in 0..=msgs.len() {
                     if si > 0 && switch > 1 {
